@@ -58,3 +58,20 @@ Theorem C05_redis_gc_registered_exact : forall ops T, Forall sop_wf ops ->
     is_Some (r_hash (k_group v6) st' !! k_swarm v6 s ih) <-> r_hash (k_swarm v6 s ih) st' <> ∅.
 Proof. exact redis_gc_registered_exact. Qed.
 Print Assumptions C05_redis_gc_registered_exact.
+
+(* ---- Redis store, concurrent: "never a freshly announced one" is FALSE of the faithful round-trip
+   model (finding F10, open): the pass's HDEL is unconditional, so a member that re-announced between
+   the pass's HGETALL and its HDEL is removed although its time is after the cutoff *)
+From Chihaya Require Import Model.Conc Proofs.ConcP.
+Theorem C05_redis_gc_removes_fresh_refuted :
+  exists (h0 : list sop) (ih : list Z) (v6 : bool) (pk : list Z) (T t : Z) (sched : list nat),
+    Forall sop_wf h0 /\ ih_wf ih /\ T < t /\
+    let st0 := run_redis h0 in
+    let final := rrun sched (rshared_of st0, [rgc_thread T; rop_thread [RPutSeeder ih v6 pk t]]) in
+    (exists t0, r_hash (k_swarm v6 true ih) st0 !! pk = Some t0 /\ t0 <= T) /\
+    finishedb final = true /\
+    r_hash (k_swarm v6 true ih) (rst final.1) !! pk = None /\
+    r_hash (k_swarm v6 true ih) (red_gc T (red_put_seeder ih v6 pk t st0)) !! pk = Some t /\
+    r_hash (k_swarm v6 true ih) (red_put_seeder ih v6 pk t (red_gc T st0)) !! pk = Some t.
+Proof. exact redis_gc_removes_fresh_refuted. Qed.
+Print Assumptions C05_redis_gc_removes_fresh_refuted.
